@@ -66,7 +66,7 @@ def ensure_facts(verbose=True):
     lock = open(os.path.join(CACHE, 'lock'), 'w')
     fcntl.flock(lock, fcntl.LOCK_EX)
     try:
-        if not os.path.exists(DRIVER):
+        if not os.path.exists(DRIVER) or os.path.getmtime(DRIVER) < os.path.getmtime(os.path.join(DRIVER_DIR, 'src', 'main.rs')):
             build_driver()
         th = tree_hash()
         fdir = os.path.join(CACHE, 'facts', th)
